@@ -21,6 +21,7 @@ import (
 	"strconv"
 	"strings"
 	"sync"
+	"syscall"
 	"testing"
 	"testing/synctest"
 	"time"
@@ -1372,7 +1373,7 @@ func (h *c07Hist) verify(level int, label string) {
 						st, _ = c07StatusMustMay(status, e)
 					}
 					if st {
-						h.rec.Unspec["... of these: entry not returned although it matches when letter case is ignored (term "+strconv.Quote(term.Value)+")"]++
+						h.rec.Unspec["... of these: an entry is not returned although it matches when letter case is ignored"]++
 
 						break
 					}
@@ -1664,6 +1665,9 @@ func TestVerifC07(t *testing.T) {
 			cmd.Env = append(os.Environ(), fmt.Sprintf("VERIF_C07_WORKER=%d/%d", w, workers), "VERIF_C07_OUT="+outs[w],
 				"GOMAXPROCS=2")
 			cmd.Stdout, cmd.Stderr = &logs[w], &logs[w]
+			// The workers must not outlive this process.
+			runtime.LockOSThread()
+			cmd.SysProcAttr = &syscall.SysProcAttr{Pdeathsig: syscall.SIGKILL}
 			errs[w] = cmd.Run()
 		}(w)
 	}
